@@ -219,7 +219,7 @@ func parseFails(s string) map[int]bool {
 // random completion orders, with every single fault position on small trees and random
 // subsets on larger ones, each followed by retries; and two stores sharing one cache.
 func genFlushCase(r *rand.Rand, cfg Cfg, big bool) Case {
-	if cfg.Cache == "tiny" {
+	if cfg.Cache == "tiny" || cfg.Cache == "one" {
 		cfg.Cache = "none"
 	}
 	us := 5 + r.Intn(40)
